@@ -157,11 +157,11 @@ def register_summary(R):
                ])
     R.contract(RR + "StreamSummary.wasSuccessful", props=["C10"], pure=True, returns="bool",
                ensures=["result == (len(listof(self.failures)) == 0 and len(listof(self.errors)) == 0)"])
-    R.contract(RR + "StreamSummary.startTestRun", props=["C10"],
+    R.contract(RR + "StreamSummary.startTestRun", props=["C10"], field_tags={"_hook": "Stream"}, frame_hist=True,
                modifies=["self.failures", "self.errors", "self.testsRun", "self.skipped", "self.expectedFailures", "self.unexpectedSuccesses",
-                         "self._hook._inprogress"],
+                         "hist(self._hook)"],
                ensures=["self.testsRun == 0", distinct] + ["len(listof(self.%s)) == 0 and not allocated(self.%s)" % (l, l) for l in LISTS]
-               + ["dictof(self._hook._inprogress) == {}"])
+               + ["hist(self._hook) == snoc(old(hist(self._hook)), call('startTestRun', [], {}))"])
 
 
 def register_wrappers(R):
